@@ -184,6 +184,10 @@ func RunRT(c *RTCase) *vkit.Outcome {
 		case "updateold":
 			msg, err = state.UpdateWithOldValue(r.Key, e, Entity{ID: "old"}, opts...)
 			wantOp = state.OperationUpdate
+		case "updatesame":
+			// the old value equals the new one (a feed that reports untouched rows)
+			msg, err = state.UpdateWithOldValue(r.Key, e, e, opts...)
+			wantOp = state.OperationUpdate
 		case "delete":
 			msg, err = state.Delete[Entity](r.Key, opts...)
 			wantOp = state.OperationDelete
